@@ -391,8 +391,84 @@ let snake_mode (path : string) =
      done
    with End_of_file -> ())
 
+(* ---------------------------------------------------------------- clone mode (C14)
+   input lines:  orig <sexp>   /  clone <sexp>  (the implementation's clone, identities numbered by
+   the harness with the SAME table as the original).  For every pair prints one line:
+   the sharing bits and erased shape of the implementation's clone and of the MODEL's clone. *)
+type tok = LP | RP | Atom of string
+let tokenize (s : string) : tok list =
+  let n = String.length s in
+  let rec go i acc =
+    if i >= n then List.rev acc
+    else match s.[i] with
+      | '(' -> go (i + 1) (LP :: acc)
+      | ')' -> go (i + 1) (RP :: acc)
+      | ' ' -> go (i + 1) acc
+      | _ -> let j = ref i in
+             while !j < n && s.[!j] <> ' ' && s.[!j] <> '(' && s.[!j] <> ')' do incr j done;
+             go !j (Atom (String.sub s i (!j - i)) :: acc)
+  in go 0 []
+
+let rec parse_gv (ts : tok list) : gv * tok list =
+  match ts with
+  | LP :: Atom "s" :: Atom n :: RP :: r -> (GScalar (z_of_string n), r)
+  | LP :: Atom "p0" :: RP :: r -> (GPtr None, r)
+  | LP :: Atom "p" :: Atom l :: r -> let (v, r1) = parse_gv r in (match r1 with RP :: r2 -> (GPtr (Some (n_of_int (int_of_string l), v)), r2) | _ -> failwith "p")
+  | LP :: Atom "l0" :: RP :: r -> (GSlice None, r)
+  | LP :: Atom "l" :: Atom l :: r -> let (vs, r1) = parse_list r in (GSlice (Some (n_of_int (int_of_string l), vs)), r1)
+  | LP :: Atom "m0" :: RP :: r -> (GMap None, r)
+  | LP :: Atom "m" :: Atom l :: r -> let (bs, r1) = parse_binds r in (GMap (Some (n_of_int (int_of_string l), bs)), r1)
+  | LP :: Atom "t" :: r -> let (fs, r1) = parse_binds r in (GStruct (List.map (fun (k, v) -> (Model.Z.eqb k (z_of_int 1), v)) fs), r1)
+  | LP :: Atom "a" :: r -> let (vs, r1) = parse_list r in (GArr vs, r1)
+  | LP :: Atom "i0" :: RP :: r -> (GIface None, r)
+  | LP :: Atom "i" :: r -> let (v, r1) = parse_gv r in (match r1 with RP :: r2 -> (GIface (Some v), r2) | _ -> failwith "i")
+  | _ -> failwith "bad value"
+and parse_list (ts : tok list) : gv list * tok list =
+  match ts with
+  | RP :: r -> ([], r)
+  | _ -> let (v, r1) = parse_gv ts in let (vs, r2) = parse_list r1 in (v :: vs, r2)
+and parse_binds (ts : tok list) : (Model.z * gv) list * tok list =
+  match ts with
+  | RP :: r -> ([], r)
+  | LP :: Atom k :: r -> let (v, r1) = parse_gv r in
+      (match r1 with RP :: r2 -> let (bs, r3) = parse_binds r2 in ((z_of_string k, v) :: bs, r3) | _ -> failwith "bind")
+  | _ -> failwith "bad binding"
+
+let rec show_gv (v : gv) : string =
+  match v with
+  | GScalar n -> "(s " ^ string_of_z n ^ ")"
+  | GPtr None -> "(p0)" | GPtr (Some (_, x)) -> "(p " ^ show_gv x ^ ")"
+  | GSlice None -> "(l0)" | GSlice (Some (_, es)) -> "(l " ^ String.concat " " (List.map show_gv es) ^ ")"
+  | GMap None -> "(m0)" | GMap (Some (_, bs)) -> "(m " ^ String.concat " " (List.map (fun (k, x) -> "(" ^ string_of_z k ^ " " ^ show_gv x ^ ")") bs) ^ ")"
+  | GStruct fs -> "(t " ^ String.concat " " (List.map (fun (e, x) -> "(" ^ (if e then "1" else "0") ^ " " ^ show_gv x ^ ")") fs) ^ ")"
+  | GArr es -> "(a " ^ String.concat " " (List.map show_gv es) ^ ")"
+  | GIface None -> "(i0)" | GIface (Some x) -> "(i " ^ show_gv x ^ ")"
+
+let clone_mode (path : string) =
+  let ic = open_in path in
+  let orig = ref None in
+  (try
+     while true do
+       let l = input_line ic in
+       if String.length l > 5 && String.sub l 0 5 = "orig " then
+         orig := Some (fst (parse_gv (tokenize (String.sub l 5 (String.length l - 5)))))
+       else if String.length l > 6 && String.sub l 0 6 = "clone " then begin
+         match !orig with
+         | None -> ()
+         | Some o ->
+             let ic_ = fst (parse_gv (tokenize (String.sub l 6 (String.length l - 6)))) in
+             let mc = clone_value o (Model.N.succ (max_loc o)) in
+             let bits v = String.concat "" (List.map (fun b -> if b then "1" else "0") (sharing o v)) in
+             let a = Printf.sprintf "share=%s distinct=%b shape=%s" (bits ic_) (fresh_distinct o ic_) (show_gv (erase ic_)) in
+             let b = Printf.sprintf "share=%s distinct=%b shape=%s" (bits mc) (fresh_distinct o mc) (show_gv (erase mc)) in
+             if a = b then print_endline ("same " ^ bits mc) else print_endline ("DIFF impl[" ^ a ^ "] model[" ^ b ^ "]")
+       end
+     done
+   with End_of_file -> ())
+
 let () =
   if Array.length Sys.argv > 2 && Sys.argv.(1) = "-snake" then (snake_mode Sys.argv.(2); exit 0);
+  if Array.length Sys.argv > 2 && Sys.argv.(1) = "-clone" then (clone_mode Sys.argv.(2); exit 0);
   let ic = if Array.length Sys.argv > 1 then open_in Sys.argv.(1) else stdin in
   let cur = ref [] in
   let flush_hist () =
